@@ -23,3 +23,15 @@ claim("C07", "exploration", "bounded exhaustive input enumeration on the real co
       "For every pairing on up to 10/12 positions, chord diagrams of up to 4/5 stems and ladders, stems/hairpins/loops/strand coverage/slices "
       "of BpSeq.elements satisfy the property's definitions, and motif_extractor prints the same elements.",
       "Strand structure slices are compared with the object's own dot_bracket.", "DESIGN.md 3/C07")
+
+claim("C12", "model_checking", "explicit-state breadth-first search over call histories on live objects with canonical state hashing, against fresh-object reference",
+      "All call sequences up to depth 4 (quick) / 8 (thorough) over 10 public operations on a graph of up to 3 live BpSeq objects, for every "
+      "root pairing on up to 6/7 positions and small chord diagrams: every answer equals the answer of a fresh copy and no object in the graph "
+      "ever changes; derivations equal their reference values.",
+      "State merging relies on the canonical form (entries, pairs, caches, aliasing) determining all futures; deepcopy is trusted.", "DESIGN.md 3/C12")
+
+claim("C13", "model_checking", "exhaustive environment-answer and fault-sequence exploration of the solver seam on the real code, each execution replayed",
+      "All 21 solver configurations and all fault scripts of length <=2/3 over 7 solver behaviours, on every knotted pairing on up to 8/10 "
+      "positions and chord diagrams of up to 3/4 stems: the conversion never raises, is lossless, equals FCFS whenever no optimum was "
+      "delivered and is optimal otherwise.",
+      "The solver is substituted at pulp module seams (pulp.HiGHS_CMD, pulp.LpSolverDefault, explicit argument); HiGHS itself is absent.", "DESIGN.md 3/C13")
